@@ -380,6 +380,12 @@ def judge(case, an, obs, where):
                 tag = sub if sub == 'outside' else '%s:%s' % (sub, 'rect-veto' if L.rect_veto(an, k) else 'plain')
                 fails.append(('mark|%s|%s' % (tag, g), '%s %s is %s, expected %s (%s; every cycle it touches closes only through unselected branches)' % (
                     where, nk, show(got), show(v), sub)))
+        elif cls_ == 'either' and case.get('strict_either') and sub == 'on-harmless+' and not isinstance(v, L.AnyErr):
+            # fixed shapes only: the cell's own cycle closes only through unselected branches and nothing it reads through a
+            # SELECTED branch is circular, so the statement ("does resolve to ordinary values") fixes the value
+            if not X.same(got, v):
+                fails.append(('mark|on-harmless-strict|%s' % g, '%s %s is %s, expected %s: its cycle closes only through unselected branches' % (
+                    where, nk, show(got), show(v))))
         elif cls_ == 'either':
             if not isinstance(got, Err) and not (not isinstance(v, L.AnyErr) and X.same(got, v)):
                 fails.append(('mark|either-wrong-value:%s|%s' % (sub, g), '%s %s is %s: an ordinary value must be the lazy value %s' % (where, nk, show(got), show(v))))
@@ -709,6 +715,19 @@ def _two_cycle_wbs():
                 out.append({'k': 'wb2', 'variant': '%s|a1=%s|a2=%s' % (shape, a1, a2),
                             'wb': {'k': 'wb', 'cells': [list(S) + c for c in cells], 'names': [],
                                    'orders': [list(range(m)), list(range(m))[::-1], rot], 'paths': ['dict', 'file'], 'sheet_order': ['S']}})
+    # a guarded cycle whose guarding formula mentions, in another branch, a rectangle holding a cell of an unrelated
+    # unavoidable cycle (added after seed c10-b-r5): the rectangle is not the way the guarded cycle enters the formula
+    for a1 in (False, True):
+        for a3 in (False, True):
+            rg = ['RG', S[0], S[1], 4, 1, 4, 2]
+            cells = [[7, 1, a1], [7, 3, a3], [4, 2, 3],
+                     [2, 1, ['IF', Rr(7, 1), Rr(3, 1), ['IF', Rr(7, 3), ['SUM', rg], 7]]], [3, 1, ['+', Rr(2, 1), 1]],
+                     [4, 1, ['+', Rr(5, 1), 1]], [5, 1, ['+', Rr(4, 1), 0]]]
+            m = len(cells)
+            out.append({'k': 'wb2', 'variant': 'guard-mentions-other-cycle|a1=%s|a3=%s' % (a1, a3),
+                        'wb': {'k': 'wb', 'cells': [list(S) + c for c in cells], 'names': [], 'strict_either': True,
+                               'orders': [list(range(m)), list(range(m))[::-1], list(range(m))[3:] + list(range(m))[:3]],
+                               'paths': ['dict', 'file'], 'sheet_order': ['S']}})
     # an unavoidable cycle through a rectangle one of whose OTHER members is the end of a long ordinary chain
     # (added after seed c10-a-r4): the chain and that member keep their ordinary values
     for depth in (3, 6, 10, 14):
